@@ -13,6 +13,7 @@ import random
 import zlib
 
 from harness import clientfix, ref_codec as R, ref_grammar as G, ref_message as RM, simnet
+from harness.ref_codec import Variant as RVariant
 from checks.c04 import RecServer, RecClient, SERVER_HS, CLIENT_HS
 
 PROP = 'C20'
@@ -40,6 +41,11 @@ RX_SHAPES = SHAPES + [
     ('', lambda it, t: [], 1),
     ('s', lambda it, t: [t], 2),
     ('h', lambda it, t: [next(it)], 2),
+    # descriptors inside variants (an a{sv} options dictionary, a bare variant): txdbus' own sender cannot produce these
+    ('v', lambda it, t: [RVariant('h', next(it))], 1),
+    ('a{sv}', lambda it, t: [[('log', RVariant('h', next(it))), ('name', RVariant('s', t)), ('lock', RVariant('h', next(it)))]], 2),
+    ('sv', lambda it, t: [t, RVariant('ah', [next(it), next(it)])], 2),
+    ('(sv)h', lambda it, t: [[t, RVariant('(hs)', [next(it), 'x'])], next(it)], 2),
 ]
 
 
@@ -82,9 +88,14 @@ def expected_body(m):
             return m['toks'][v]
         if c == 'a':
             et = ct[1:]
+            if et[0] == '{':
+                kt, vt = G.struct_fields(et)
+                return {sub(kt, k_): sub(vt, v_) for k_, v_ in v}
             return [sub(et, x) for x in v]
         if c == '(':
             return [sub(ft, fv) for ft, fv in zip(G.struct_fields(ct), v)]
+        if c == 'v':
+            return sub(v.sig, v.value)
         return v
     return [sub(ct, v) for ct, v in zip(G.split_signature(m['sig']), m['typed'])] if m['sig'] else []
 
@@ -94,6 +105,8 @@ def same(a, b):
         return a is b
     if isinstance(a, list) and isinstance(b, list):
         return len(a) == len(b) and all(same(x, y) for x, y in zip(a, b))
+    if isinstance(a, dict) and isinstance(b, dict):
+        return set(a) == set(b) and all(same(a[k_], b[k_]) for k_ in a)
     return a == b
 
 
